@@ -45,6 +45,9 @@ pub enum Ev {
     Flood(u8),
     /// The user asks for a gossip round and, without yielding, asks for shutdown.
     GossipThenShutdown,
+    /// The user queues this many gossip requests back-to-back and then, without yielding, asks
+    /// for shutdown (selector into {2, 12, 127, 128, 129, 300, 1000}).
+    GossipBurstThenShutdown(u8),
     RecvFatal,
     RecvPanic,
     Shutdown,
@@ -325,6 +328,25 @@ pub fn exec_srv(case: &SrvCase, tally: &mut Tally) -> Result<(), Failure> {
                         break;
                     }
                 }
+                Ev::GossipBurstThenShutdown(sel) => {
+                    if !shut {
+                        shut = true;
+                        let h = handle.take().unwrap();
+                        let n = [2usize, 12, 127, 128, 129, 300, 1000][*sel as usize % 7];
+                        for i in 0..n {
+                            let _ = h.gossip(peer_addr(2 + (i % 3) as u16));
+                        }
+                        let r = tokio::time::timeout(STALL, h.shutdown()).await;
+                        if r.is_err() {
+                            return vio("C19/shutdown-hangs", format!("event {step}: a shutdown requested right after {n} queued gossip requests did not complete within {STALL:?} of virtual time"));
+                        }
+                        tally.label("gossip_burst_then_shutdown");
+                        if n >= 128 {
+                            tally.label("burst_of_128_or_more_requests");
+                        }
+                        break;
+                    }
+                }
                 Ev::UserGossip => {
                     let _ = h.gossip(peer_addr(2));
                     tokio::time::sleep(Duration::from_millis(1)).await;
@@ -500,6 +522,7 @@ fn ev_strategy() -> impl Strategy<Value = Ev> {
         1 => Just(Ev::GatedTick),
         1 => (0u8..6).prop_map(Ev::Flood),
         1 => Just(Ev::GossipThenShutdown),
+        1 => (0u8..7).prop_map(Ev::GossipBurstThenShutdown),
         1 => Just(Ev::RecvFatal),
         1 => Just(Ev::RecvPanic),
         1 => Just(Ev::Shutdown),
@@ -757,6 +780,9 @@ pub struct TargetsCase {
     /// first DNS refresh (60 s): the literal seeds must stay in the seed set.
     #[serde(default)]
     pub hostname_seed: bool,
+    /// The server listens on the wildcard address (0.0.0.0:port) and advertises 127.0.0.1:port.
+    #[serde(default)]
+    pub wildcard_listen: bool,
 }
 
 pub fn exec_targets(case: &TargetsCase, tally: &mut Tally) -> Result<(), Failure> {
@@ -789,7 +815,7 @@ pub fn exec_targets(case: &TargetsCase, tally: &mut Tally) -> Result<(), Failure
             chitchat_id: id.clone(),
             cluster_id: "c".into(),
             gossip_interval: interval,
-            listen_addr: own_addr,
+            listen_addr: if case.wildcard_listen { SocketAddr::from(([0, 0, 0, 0], own_addr.port())) } else { own_addr },
             seed_nodes: seeds.clone(),
             // 20 s: dead peers are scheduled for deletion after 10 rounds and removed after 20
             failure_detector_config: FailureDetectorConfig { dead_node_grace_period: Duration::from_secs(20), ..FailureDetectorConfig::default() },
@@ -797,7 +823,11 @@ pub fn exec_targets(case: &TargetsCase, tally: &mut Tally) -> Result<(), Failure
             catchup_callback: None,
             extra_liveness_predicate: if case.predicate { Some(Box::new(|ns: &chitchat::NodeState| ns.get("READY") == Some("true"))) } else { None },
         };
-        let handle = match spawn_chitchat(config, vec![("READY".to_string(), "true".to_string())], &transport).await {
+        // the server's peer selection is a function of the case (hook: feature `verif`)
+        chitchat::verif::verif_set_server_seed(Some(str_hash(&format!("{case:?}"))));
+        let spawned = spawn_chitchat(config, vec![("READY".to_string(), "true".to_string())], &transport).await;
+        chitchat::verif::verif_set_server_seed(None);
+        let handle = match spawned {
             Ok(h) => h,
             Err(e) => return vio("C17/spawn-failed", format!("{e:#}")),
         };
@@ -854,7 +884,10 @@ pub fn exec_targets(case: &TargetsCase, tally: &mut Tally) -> Result<(), Failure
                     return vio("C17/server-several-dead-targets", format!("round {round}: {n_live} live peers are known, yet {dead_hit} dead peers were contacted in one round: {syns:?} (application liveness predicate configured: {})", case.predicate));
                 }
             }
-            if round >= 1 && n_live == 0 && case.seeds & 1 != 0 && !syns.contains(&foreign_seed) && !(case.seeds & 4 != 0 && syns.iter().any(|a| a.port() == 9200)) && !(case.hostname_seed && syns.iter().any(|a| a.port() == 9300)) {
+            // the seed set without the server's own address: foreign literal seed, peer 0, host name
+            let some_seed = case.seeds & 1 != 0 || (case.seeds & 4 != 0 && n_peers > 0) || case.hostname_seed;
+            let seed_hit = (case.seeds & 1 != 0 && syns.contains(&foreign_seed)) || (case.seeds & 4 != 0 && syns.iter().any(|a| a.port() == 9200)) || (case.hostname_seed && syns.iter().any(|a| a.port() == 9300));
+            if round >= 1 && n_live == 0 && some_seed && !seed_hit {
                 return vio("C17/server-isolated-no-seed", format!("round {round}: no live peer and a seed exists, yet the round's SYNs {syns:?} reach no seed"));
             }
             // Dead peers outnumbering live ones must be probed, also once they are scheduled for
@@ -899,6 +932,12 @@ pub fn exec_targets(case: &TargetsCase, tally: &mut Tally) -> Result<(), Failure
         if case.predicate && n_live >= 1 {
             tally.label("liveness_predicate_no_peer_ready");
         }
+        if case.wildcard_listen && case.seeds & 2 != 0 {
+            tally.label("wildcard_listen_own_address_among_seeds");
+        }
+        if case.seeds & 5 == 4 && n_live == 0 && n_peers >= 4 {
+            tally.label("only_seed_is_a_dead_peer");
+        }
         if case.seeds & 2 != 0 || n_live == 0 {
             tally.nontrivial(str_hash(&format!("{case:?}")));
             tally.sample(|| serde_json::to_value(case).unwrap());
@@ -913,8 +952,8 @@ pub fn exec_targets(case: &TargetsCase, tally: &mut Tally) -> Result<(), Failure
 }
 
 pub fn targets_strategy() -> impl Strategy<Value = TargetsCase> {
-    (0u8..13, 0u8..13, 0u8..8, 0u8..16, prop_oneof![2 => Just(0u16), 1 => any::<u16>()], proptest::bool::weighted(0.3), proptest::bool::weighted(0.04))
-        .prop_map(|(peers, live, seeds, rounds, failing_peers, predicate, hostname_seed)| TargetsCase { peers, live, seeds, rounds, failing_peers, predicate, hostname_seed })
+    (0u8..13, 0u8..13, 0u8..8, 0u8..16, prop_oneof![2 => Just(0u16), 1 => any::<u16>()], proptest::bool::weighted(0.3), proptest::bool::weighted(0.04), proptest::bool::weighted(0.3))
+        .prop_map(|(peers, live, seeds, rounds, failing_peers, predicate, hostname_seed, wildcard_listen)| TargetsCase { peers, live, seeds, rounds, failing_peers, predicate, hostname_seed, wildcard_listen })
 }
 
 pub fn run_targets(ctx: &Ctx, report: &mut Report) {
